@@ -162,9 +162,9 @@ Proof.
     rewrite Hf in H1. cbn [fst] in H1. destruct H1 as [A B C D]. split; auto.
   - destruct (fold_left _ _ _) as [c1 evs1] eqn:Hf.
     destruct (d_max nd <? c_max c1); [discriminate|]. injection H as <- _ _.
-    assert (H0 : copy_int T (d_id nd) (reset_node (d_gc nd))).
-    { split; cbn; try lia; try (intros k v []); try exact Hn3; try apply N.le_0_l. }
-    pose proof (fold_apply_kv_int T (d_id nd) now (c_max (reset_node (d_gc nd))) (d_kvs nd) (reset_node (d_gc nd), []) H0 Hall) as H1.
+    assert (H0 : copy_int T (d_id nd) (reset_node (c_hb c) (d_gc nd))).
+    { split; cbn; try lia; try (intros k v []); try exact Hn3; try exact (cint_hb _ _ _ Hc); try apply N.le_0_l. }
+    pose proof (fold_apply_kv_int T (d_id nd) now (c_max (reset_node (c_hb c) (d_gc nd))) (d_kvs nd) (reset_node (c_hb c) (d_gc nd), []) H0 Hall) as H1.
     rewrite Hf in H1. cbn [fst] in H1. destruct H1 as [A B C D]. split; auto.
 Qed.
 
